@@ -312,7 +312,23 @@ class Interp:
                         fname = held.name[5:]
                 fval = held
             args = [self.eval(a, st) for a in e.args]  # *x arrives as R('starred', of=x)
-            kwargs = {k.arg: self.eval(k.value, st) for k in e.keywords if k.arg}
+            kwargs = {}
+            for k in e.keywords:
+                kv = self.eval(k.value, st)
+                if k.arg:
+                    kwargs[k.arg] = kv
+                    continue
+                # **mapping: a dict with constant string keys is spread into keywords
+                pairs: Optional[List[Tuple[Any, Any]]] = None
+                if isinstance(kv, Ref) and kv.kind in ("dict", "defaultdict"):
+                    pairs = list(st.dict_of(kv).items())
+                elif isinstance(kv, R) and kv.kind == "dict" and "items" in kv.fields:
+                    pairs = list(kv.fields["items"])
+                if pairs is not None and all(isinstance(a, K) and isinstance(a.v, str) for a, _ in pairs):
+                    for a, b in pairs:
+                        kwargs[a.v] = b
+                else:
+                    kwargs["**"] = kv
             if st.pending is not None:
                 return U("an operand raised")  # the call itself never happens
             # built-in record operation: x.replace(field=value)
@@ -683,7 +699,7 @@ class Interp:
             if isinstance(b, K) and isinstance(b.v, (tuple, frozenset)) and not isinstance(a, U):
                 if any(isinstance(x, U) for x in b.v):
                     return None
-                r = any(self._compare(ast.Eq(), a, x) for x in b.v)
+                r = any(self._compare(ast.Eq(), a, x if isinstance(x, V) else K(x)) for x in b.v)
                 return (not r) if neg else r
             return None
         if isinstance(a, K) and isinstance(b, K):
@@ -779,6 +795,28 @@ class Interp:
             st.env[target.id] = v
             for k in [k for k in st.assume if _mentions(k, target.id)]:
                 del st.assume[k]
+        elif isinstance(target, (ast.Tuple, ast.List)) and any(isinstance(t, ast.Starred) for t in target.elts):
+            items: Optional[List[Any]] = None
+            if isinstance(v, K) and isinstance(v.v, tuple):
+                items = [x if isinstance(x, V) else K(x) for x in v.v]
+            elif isinstance(v, Ref) and isinstance(st.deref(v), list) and v.kind != "set":
+                items = list(st.deref(v))
+            elif isinstance(v, R) and v.kind == "list" and "items" in v.fields:
+                items = list(v.fields["items"])
+            si = next(i for i, t in enumerate(target.elts) if isinstance(t, ast.Starred))
+            after = len(target.elts) - si - 1
+            if items is None or len(items) < si + after:
+                if items is not None:
+                    st.pending = st.pending or "ValueError"
+                for t in target.elts:
+                    self._assign(t.value if isinstance(t, ast.Starred) else t, U("unpack"), st)
+            else:
+                for t, x in zip(target.elts[:si], items[:si]):
+                    self._assign(t, x, st)
+                mid = items[si:len(items) - after]
+                self._assign(target.elts[si].value, st.alloc("list", list(mid)) if self.heap else R("list", items=tuple(mid)), st)
+                for t, x in zip(target.elts[si + 1:], items[len(items) - after:]):
+                    self._assign(t, x, st)
         elif isinstance(target, (ast.Tuple, ast.List)):
             if isinstance(v, K) and isinstance(v.v, tuple) and len(v.v) == len(target.elts):
                 for t, x in zip(target.elts, v.v):
@@ -828,12 +866,17 @@ class Interp:
     def stmt(self, s: ast.stmt, st: State) -> List[State]:
         if isinstance(s, ast.Assign):
             v = self.eval(s.value, st)
+            if st.pending is not None:
+                return [st]  # the right-hand side raised: nothing is bound
             for t in s.targets:
                 self._assign(t, v, st)
             return [st]
         if isinstance(s, ast.AnnAssign):
             if s.value is not None:
-                self._assign(s.target, self.eval(s.value, st), st)
+                v = self.eval(s.value, st)
+                if st.pending is not None:
+                    return [st]
+                self._assign(s.target, v, st)
             return [st]
         if isinstance(s, ast.AugAssign):
             cur = self.eval(s.target, st) if isinstance(s.target, ast.Name) else U("aug")
